@@ -107,7 +107,13 @@ def applicable_ops(ref, universe, payloads=(b"one", b""), with_meta_update=True,
 def apply_op(store, op):
     name = op[0]
     if name == "store":
-        store.store(op[1], op[2], dict(op[3]))
+        m = dict(op[3])
+        store.store(op[1], op[2], m)
+        if not isinstance(store, RefStore):
+            # the caller keeps (and may change) its own dictionary: the stored entry must not follow
+            m["custom"] = "changed-by-the-caller-after-store"
+            if isinstance(m.get("fileinfo"), dict):
+                m["fileinfo"]["size"] = -1
     elif name == "store_metadata":
         # "metadata update of an existing key": read, change the caller's fields, write back
         m = store.get_metadata(op[1]) if not isinstance(store, RefStore) else dict(store.meta.get(op[1], {}))
@@ -294,3 +300,54 @@ def wrap(factory, wrapper):
 
 def snapshot(store, universe):
     return observe(store, universe)
+
+
+class Prefixed:
+    """Adapter: the sub-tree of `store` below `prefix`, seen as a store of its own (for mounted compositions)."""
+
+    def __init__(self, store, prefix):
+        self.inner = store
+        self.prefix = prefix
+
+    def k(self, key):
+        return self.prefix if key == "" else self.prefix + "/" + key
+
+    def keys(self):
+        out = []
+        for x in self.inner.keys():
+            if x.startswith(self.prefix + "/"):
+                out.append(x[len(self.prefix) + 1:])
+        return out
+
+    def contains(self, key):
+        return self.inner.contains(self.k(key))
+
+    def is_dir(self, key):
+        return self.inner.is_dir(self.k(key))
+
+    def get_bytes(self, key):
+        return self.inner.get_bytes(self.k(key))
+
+    def get_metadata(self, key):
+        m = self.inner.get_metadata(self.k(key))
+        if isinstance(m, dict):
+            m = dict(m)
+            if m.get("key") == self.k(key):
+                m["key"] = key
+        return m
+
+    def listdir(self, key):
+        return self.inner.listdir(self.k(key))
+
+    def store(self, key, data, metadata):
+        return self.inner.store(self.k(key), data, metadata)
+
+
+def _pref_op(p, op):
+    def f(self, key, *a, **kw):
+        return getattr(self.inner, op)(self.k(key), *a, **kw)
+    return f
+
+
+for _op in ("store_metadata", "remove", "removedir", "makedir"):
+    setattr(Prefixed, _op, _pref_op(Prefixed, _op))
